@@ -1,4 +1,116 @@
 import PgsVerif.Model.GoTypes
+import PgsVerif.Props.C09
+/-!
+# C17 — predicted Go types, packages and paths equal what protoc-gen-go emits
+
+Facts relating the two transcriptions (pgsgo vs protoc-gen-go v1.23.0): the scalar type table,
+the pointer rule (via C09's presence theorem), package name and import path on the stated domain
+of `go_package` options.
+-/
 namespace Pgs.GoTypes
-theorem placeholder_C17 : True := trivial
+open Pgs Pgs.AST
+
+/-- the 14 scalar kinds that are neither enum, message nor group -/
+def scalarKinds : List Nat := [1, 2, 3, 4, 5, 6, 7, 8, 9, 12, 13, 15, 16, 17, 18]
+
+/-- **Scalar table**: both sides map every scalar kind to the same Go type. -/
+theorem C17_scalar_table : ∀ t ∈ scalarKinds, PgsGo.scalarType t = Protogen.scalarGo t := by decide
+
+/-- **Pointer rule** for singular scalar fields: pgsgo adds the pointer exactly when
+    protoc-gen-go does (both follow field presence, C09). -/
+theorem C17_scalar_pointer (f : FileD) (fd : FieldD) (ok : FieldOK f fd) :
+    pgsPresence f fd = prPresence f fd := by
+  obtain ⟨h1, h2⟩ := C09_presence f fd ok
+  rw [h1, h2]
+
+/-! ### package names -/
+
+/-- a go_package last element of the stated domain: starts with a letter or digit -/
+def usable (last : Bytes) : Prop := ∃ c rest, last = c :: rest ∧ isAlnum c = true
+
+theorem sanitize_head (c : Nat) (rest : Bytes) (hc : isAlnum c = true) :
+    PgsGo.sanitize (c :: rest) = c :: PgsGo.sanitize rest := by
+  simp [PgsGo.sanitize, hc]
+
+/-- on a usable last element pgsgo's sanitising + keyword/digit prefix is `GoSanitized` -/
+theorem sanitized_agree (last : Bytes) (h : usable last) :
+    (let pkg := PgsGo.sanitize last
+     let pkg := if goKeywordsB.contains pkg then underscore :: pkg else pkg
+     match pkg with
+     | c :: _ => if GoNames.isDigitB c then underscore :: pkg else pkg
+     | [] => pkg) = Protogen.goSanitized last := by
+  obtain ⟨c, rest, rfl, hc⟩ := h
+  have hs := sanitize_head c rest hc
+  unfold Protogen.goSanitized
+  have hmap : (c :: rest).map (fun c => if isAlnum c then c else underscore) = PgsGo.sanitize (c :: rest) := rfl
+  simp only [hmap, hs]
+  by_cases hk : goKeywordsB.contains (c :: PgsGo.sanitize rest) = true
+  · -- a keyword starts with a letter
+    have hnd : GoNames.isDigitB underscore = false := by decide
+    simp only [hk, if_true, Bool.true_or, hnd, Bool.false_eq_true, if_false]
+  · have hk' : goKeywordsB.contains (c :: PgsGo.sanitize rest) = false := by simpa using hk
+    simp only [hk', Bool.false_eq_true, if_false, Bool.false_or]
+    by_cases hl : isLetterB c = true
+    · have hd : GoNames.isDigitB c = false := by
+        simp only [isLetterB, GoNames.isDigitB, Bool.or_eq_true, Bool.and_eq_true, decide_eq_true_eq] at hl ⊢
+        rcases hl with ⟨h1, h2⟩ | ⟨h1, h2⟩ <;> simp <;> omega
+      simp only [hl, hd, Bool.not_true, Bool.false_eq_true, if_false]
+    · have hl' : isLetterB c = false := by simpa using hl
+      have hd : GoNames.isDigitB c = true := by
+        simp only [isAlnum, isLetterB, GoNames.isDigitB, Bool.or_eq_true, Bool.and_eq_true, decide_eq_true_eq,
+          Bool.or_eq_false_iff, Bool.and_eq_false_iff, decide_eq_false_iff_not] at hc hl' ⊢
+        omega
+      simp only [hl', hd, Bool.not_false, if_true]
+
+/-- **Package name** agrees for the three go_package forms (`path;name` with one semicolon,
+    `path/last`, bare name) whenever the last element is usable. -/
+theorem C17_package_name (input opt : Bytes)
+    (hsemi : ∀ i, lastIndexOf semicolon opt = some i → firstIndexOf semicolon opt = some i)
+    (hlast : usable (match firstIndexOf semicolon opt with
+                      | some i => opt.drop (i+1)
+                      | none => match lastIndexOf slash opt with | some i => opt.drop (i+1) | none => opt)) :
+    PgsGo.packageName input opt = Protogen.packageName opt := by
+  unfold PgsGo.packageName PgsGo.optionPackage Protogen.packageName Protogen.goPackageOption
+  cases hl : lastIndexOf semicolon opt with
+  | some i =>
+    have hf := hsemi i hl
+    simp only [hf] at hlast ⊢
+    exact sanitized_agree _ hlast
+  | none =>
+    have hf : firstIndexOf semicolon opt = none := by
+      unfold lastIndexOf at hl
+      unfold firstIndexOf
+      cases hr : opt.reverse.findIdx? (· == semicolon) with
+      | some j => simp [hr] at hl
+      | none =>
+        rw [List.findIdx?_eq_none_iff] at hr ⊢
+        intro x hx
+        exact hr x (List.mem_reverse.mpr hx)
+    simp only [hf] at hlast ⊢
+    cases hs : lastIndexOf slash opt with
+    | some j => simp only [hs] at hlast ⊢; exact sanitized_agree _ hlast
+    | none => simp only [hs] at hlast ⊢; exact sanitized_agree _ hlast
+
+/-- **Import path** agrees for the three forms when a semicolon, if any, is unique and preceded by
+    a non-empty path. -/
+theorem C17_import_path (input opt : Bytes)
+    (hsemi : ∀ i, lastIndexOf semicolon opt = some i → firstIndexOf semicolon opt = some i ∧ opt.take i ≠ [])
+    (hnone : lastIndexOf semicolon opt = none → firstIndexOf semicolon opt = none)
+    (hne : opt ≠ []) :
+    PgsGo.importPath input opt = Protogen.importPath input opt := by
+  unfold PgsGo.importPath PgsGo.optionPackage Protogen.importPath Protogen.goPackageOption
+  cases hl : lastIndexOf semicolon opt with
+  | some i =>
+    obtain ⟨hf, hnz⟩ := hsemi i hl
+    simp [hf, hnz]
+  | none =>
+    simp only [hnone hl]
+    cases hs : lastIndexOf slash opt with
+    | some j => simp [hne]
+    | none => simp
+
+/-! ### non-vacuity: "example.com/x/9lives" and "a/b;type" -/
+example : PgsGo.packageName [102] [97,47,57,108] = Protogen.packageName [97,47,57,108] := by decide
+example : Protogen.packageName [97,47,98,59,116,121,112,101] = [95,116,121,112,101] := by decide
+
 end Pgs.GoTypes
